@@ -1,7 +1,8 @@
 from props.c04 import C04
+from props.c06 import C06
 
 
-class C05(C04):
+class C05Iso(C04):
     id = "C05"
     props_file = "Props/C05.v"
     props_module = "Props.C05"
@@ -9,11 +10,34 @@ class C05(C04):
                    "Open Scope N_scope.")
     spec_fn = "spec_c05"
     flavor = "iso"
-    counts = {"quick": 1200, "thorough": 24000}
-    rule = ("1-3 fresh resources, each with 1-3 isolation rules (thresholds 1..10, a few invalid 0, equal "
-            "rules under different ids), batch 1..6, up to ~10 simultaneously open entries exited in random "
-            "order, clock steps; non-trivial = at least two builds and one exit; distinct = distinct case text")
+    counts = {"quick": 1000, "thorough": 20000}
+    rule = ("isolation: 1-3 fresh resources, each with 1-3 isolation rules (thresholds 1..10, a few invalid 0, "
+            "equal rules under different ids), batch 1..6, up to ~10 simultaneously open entries exited in "
+            "random order, clock steps; non-trivial = at least two builds and one exit")
 
     def nontrivial(self, c, obs):
         kinds = [o[0] for o in c["ops"]]
         return kinds.count("B") >= 2 and "X" in kinds
+
+
+class C05Hot(C06):
+    id = "C05"
+    props_file = "Props/C05.v"
+    props_module = "Props.C05"
+    coq_imports = ("From SV Require Import Model.Base Model.Hotspot Run.Common Run.RunHot Run.RunC05h.\n"
+                   "Open Scope N_scope.")
+    spec_fn = "spec_c05h"
+    flavor = "conc"
+    counts = {"quick": 1000, "thorough": 20000}
+    rule = ("hotspot concurrency: a fresh resource with 1-3 hotspot concurrency rules (threshold 1..8, per-value "
+            "overrides, positional parameters incl. negative / out-of-range indices, keyed attachments, "
+            "missing parameters), 1-4 parameter values, batch 1..12, entries exited in random order; the Spec "
+            "is evaluated on the single-rule cases, all cases are compared with the model; non-trivial = at "
+            "least 3 builds with an extractable value")
+
+
+class C05(C05Iso):
+    """C05 is served by two case families."""
+
+    def parts(self):
+        return [C05Iso(), C05Hot()]
